@@ -1,21 +1,24 @@
 #!/bin/bash
 # seed_matrix.sh [ID...] : apply every stored seed to /repo, run its property's quick check, undo; writes seeded/MATRIX.md
+# With VERIF_REPO=<scratch worktree of /repo> the seeds are applied there instead (the check honours VERIF_REPO), so that /repo
+# stays untouched while something else is reading it.
 cd "$(dirname "$0")"
 export GOFLAGS=-mod=mod GOPROXY=off GOSUMDB=off GOTOOLCHAIN=local
-[ -z "$(git -C /repo status --short)" ] || { echo "/repo is not clean"; exit 2; }
+R=${VERIF_REPO:-/repo}
+[ -z "$(git -C $R status --short)" ] || { echo "$R is not clean"; exit 2; }
 IDS=${@:-$(ls seeded | grep '^C[0-9]')}
 OUT=seeded/MATRIX.md
 [ $# -eq 0 ] && { echo "| seed | property | result | replay kind |"; echo "|---|---|---|---|"; } > $OUT
 for ID in $IDS; do
   # the check that is expected to catch it: the first of caught_by_checks (usually the seed's own property)
   P=$(python3 -c "import json;m=json.load(open('seeded/$ID/meta.json'));print((m.get('caught_by_checks') or [m['property']])[0])")
-  git -C /repo apply "$PWD/seeded/$ID/patch.diff" || { echo "| $ID | $P | PATCH DOES NOT APPLY | |" >> $OUT; continue; }
+  git -C $R apply "$PWD/seeded/$ID/patch.diff" || { echo "| $ID | $P | PATCH DOES NOT APPLY | |" >> $OUT; continue; }
   L=$(./check $P 2>&1 | grep -v '^WARNING' | tail -2)
-  git -C /repo checkout -- .
+  git -C $R checkout -- . ; git -C $R clean -fdq
   V=$(echo "$L" | grep -c '^VIOLATION')
   K=$(echo "$L" | grep -q 'no-failing-input-found' && echo "proof/correspondence only" || echo "failing input")
   S=$(echo "$L" | tail -1 | sed 's/.*theorems/theorems/')
   if [ "$V" -ge 1 ]; then echo "| $ID | $P | caught: $S | $K |" >> $OUT; else echo "| $ID | $P | MISSED: $S | |" >> $OUT; fi
   tail -1 $OUT
 done
-git -C /repo status --short | head -3
+git -C $R status --short | head -3
